@@ -2,7 +2,7 @@
 # usage: tools/import_seed.sh <out dir of a sub-agent> <Cxx> <a|b> <suffix in seeded/>   e.g. /tmp/seed2/C05/out C05 a c
 src=$1; id=$2; x=$3; suf=$4
 d=/verif/seeded/$id$suf; mkdir -p $d
-cp $src/patch_$x.diff $d/patch.diff; cp $src/demo_${x}_test.go $d/demo_test.go; cp $src/notes_$x.md $d/notes.md
+cp $src/patch_$x.diff $d/patch.diff; cp $src/demo_${x}_test.go $d/demo_test.go 2>/dev/null || cp $src/demo_${x}_test.go.txt $d/demo_test.go; cp $src/notes_$x.md $d/notes.md
 dest=$(head -1 $d/notes.md | sed -n 's/^DEST: *//p' | tr -d '`' | tr -d ' ')
 [ -z "$dest" ] && dest=$(grep -o '[a-z-]*\(/messages\)\?/zz_demo_[a-z_0-9]*_test\.go' $d/notes.md | head -1)
 run=$(grep -o 'func Test[A-Za-z0-9_]*' $d/demo_test.go | sed 's/func //' | tr '\n' '|' | sed 's/|$//')
